@@ -227,6 +227,8 @@ var refreshQueries = []string{
 	`{ devices { id owner { email boss { secret } } tags } admins { hiding } }`,
 	`{ users { device { id } device { owner { name } owner { email } } } }`,
 	`{ a: user(id: 1) { email age } b: user(id: 2) { boss { email } } }`,
+	// root fields on different services: sibling sub-plans stitch into one result object
+	`{ users { id email age } devices { id temp } admins { id hiding } }`,
 }
 
 var refreshAssignments = []fedfix.Assignment{
@@ -311,7 +313,11 @@ func refreshItem(c rcfg) *explore.Item {
 }
 
 func refreshItemOn(c rcfg, q string, want interface{}, dep0, dep1 *fedfix.Deployment, cache map[int]*fetched) *explore.Item {
-	return &explore.Item{Name: c.String(), Bound: -1, MaxSteps: 400000, MaxClock: 50, Race: true, Body: func(x *explore.Exec) {
+	bound := -1
+	if c.Twice || c.N > 1 || c.Down {
+		bound = 2 // three threads or two refreshes: the same bound in both tiers
+	}
+	return &explore.Item{Name: c.String(), Bound: bound, MaxSteps: 400000, MaxClock: 50, Race: true, Body: func(x *explore.Exec) {
 		ctx, cancel := rt.WithCancel(context.Background())
 		defer cancel()
 		var g *fedfix.Gateway
@@ -442,6 +448,7 @@ func refreshConfigs(tier string) []rcfg {
 			}
 		}
 		out = append(out, rcfg{Asg: asg, Query: 0, N: 1, Twice: true, Introsp: true})
+		out = append(out, rcfg{Asg: asg, Query: 4, N: 1})
 		out = append(out, rcfg{Asg: asg, Query: asg, N: 1, Down: true}, rcfg{Asg: asg, Query: 2 + asg, N: 2, Down: true})
 	}
 	return out
